@@ -3,6 +3,7 @@ package main
 import (
 	"fmt"
 	"math"
+	"strconv"
 	"strings"
 
 	"gonum.org/v1/gonum/integrate"
@@ -14,16 +15,26 @@ const (
 	tolRomberg = 1e-13 // relative to (b-a)*max|f|; Richardson steps divide by 4^j-1
 )
 
-var spacingAlphabet = []float64{1, 2, 0.5}
-var spacingNames = []string{"1", "2", "h"}
+// Two spacing alphabets: regular-ish {1,2,1/2} and clustered {1,1/64,8}.
+type spacingSet struct {
+	name  string
+	h     []float64
+	names []string
+}
+
+var spacingSets = []spacingSet{
+	{"A", []float64{1, 2, 0.5}, []string{"1", "2", "h"}},
+	{"B", []float64{1, 1. / 64, 8}, []string{"1", "c", "8"}},
+}
 
 // gridFromCode decodes a base-3 spacing word of length m.
-func gridFromCode(code, m int, a float64) (x []float64, name string, uniform bool) {
+func gridFromCode(ss spacingSet, code, m int, a float64) (x []float64, name string, uniform bool, ratio float64) {
 	x = make([]float64, m+1)
 	x[0] = a
 	var sb strings.Builder
 	uniform = true
-	first := -1
+	first, prev := -1, -1
+	ratio = 1
 	for i := 0; i < m; i++ {
 		s := code % 3
 		code /= 3
@@ -32,10 +43,14 @@ func gridFromCode(code, m int, a float64) (x []float64, name string, uniform boo
 		} else if s != first {
 			uniform = false
 		}
-		x[i+1] = x[i] + spacingAlphabet[s]
-		sb.WriteString(spacingNames[s])
+		if prev >= 0 {
+			ratio = math.Max(ratio, math.Max(ss.h[s]/ss.h[prev], ss.h[prev]/ss.h[s]))
+		}
+		prev = s
+		x[i+1] = x[i] + ss.h[s]
+		sb.WriteString(ss.names[s])
 	}
-	return x, sb.String(), uniform
+	return x, sb.String(), uniform, ratio
 }
 
 func pow3(m int) int {
@@ -55,25 +70,33 @@ func sample(x []float64, d int) []float64 {
 }
 
 func genNewtonCotes(g *vlib.G) {
-	maxM := vlib.Pick(g, 9, 11)
-	for m := 1; m <= maxM; m++ {
-		for code := 0; code < pow3(m); code++ {
-			for _, a := range []float64{0, -2.5} {
-				m, code, a := m, code, a
-				_, name, _ := gridFromCode(code, m, a)
-				g.Case(fmt.Sprintf("grid a=%g s=%s", a, name), func(t *vlib.T) { gridCase(t, m, code, a) })
+	for si, ss := range spacingSets {
+		maxM := vlib.Pick(g, 11, 13)
+		if si == 1 {
+			maxM = vlib.Pick(g, 10, 12)
+		}
+		for m := 1; m <= maxM; m++ {
+			for code := 0; code < pow3(m); code++ {
+				for _, a := range []float64{0, -2.5} {
+					ss, m, code, a := ss, m, code, a
+					_, name, _, _ := gridFromCode(ss, code, m, a)
+					g.Case("grid "+ss.name+" a="+strconv.FormatFloat(a, 'g', -1, 64)+" s="+name, func(t *vlib.T) { gridCase(t, ss, m, code, a) })
+				}
 			}
 		}
 	}
 	g.Case("grid panics", func(t *vlib.T) { gridPanics(t) })
 }
 
-func gridCase(t *vlib.T, m, code int, a float64) {
-	x, _, uniform := gridFromCode(code, m, a)
+func gridCase(t *vlib.T, ss spacingSet, m, code int, a float64) {
+	x, _, uniform, ratio := gridFromCode(ss, code, m, a)
 	n := len(x)
 	b := x[n-1]
 	t.Nontrivial()
-	t.Outcome(fmt.Sprintf("points%%2=%d uniform=%v", n%2, uniform))
+	t.Outcome(fmt.Sprintf("%s points%%2=%d uniform=%v", ss.name, n%2, uniform))
+	// The irregular Simpson weights grow like the ratio of neighbouring spacings (with cancellation
+	// between them); the rounding bound scales accordingly (factor 1 for the alphabet {1,2,1/2}).
+	amp := math.Max(1, ratio/4)
 	// Trapezoidal: degree <= 1 exactly (all operations are exact on dyadic data).
 	for d := 0; d <= 1; d++ {
 		got := integrate.Trapezoidal(x, sample(x, d))
@@ -82,8 +105,14 @@ func gridCase(t *vlib.T, m, code int, a float64) {
 			t.Failf("Trapezoidal(x^%d) on %v = %v, want exactly %v", d, x, got, want)
 		}
 	}
-	if got, want := integrate.Trapezoidal(x, sample(x, 2)), ratFloat(ratMonomialIntegral(a, b, 2)); math.Abs(got-want) < 1e-3 {
-		t.Failf("vacuity guard: Trapezoidal(x^2) on %v is exact (%v)", x, got)
+	// The trapezoidal error for x^2 is exactly sum h^3/6.
+	trunc := 0.0
+	for i := 1; i < n; i++ {
+		h := x[i] - x[i-1]
+		trunc += h * h * h / 6
+	}
+	if got, want := integrate.Trapezoidal(x, sample(x, 2)), ratFloat(ratMonomialIntegral(a, b, 2)); math.Abs(got-want) < 0.4*trunc {
+		t.Failf("vacuity guard: Trapezoidal(x^2) on %v is exact (%v, truncation term %v)", x, got, trunc)
 	}
 	if n < 3 {
 		return
@@ -96,11 +125,13 @@ func gridCase(t *vlib.T, m, code int, a float64) {
 		scale := (b-a)*maxAbs(f) + math.Abs(want)
 		exact := d <= 2 || (uniform && n%2 == 1)
 		switch {
-		case exact && math.Abs(got-want) > tolSimpson*scale:
+		case exact && math.Abs(got-want) > tolSimpson*amp*scale:
 			t.Failf("Simpsons(x^%d) on %v = %v, want %v (defect %.3g)", d, x, got, want, math.Abs(got-want)/scale)
-		case d == 3 && uniform && n%2 == 0 && math.Abs(got-want) < 1e-6*scale:
+		case d == 3 && uniform && n%2 == 0 && math.Abs(got-want) < 0.1*powi(x[1]-x[0], 4):
+			// the last panel integrates the parabola through the last three points: error h^4/4
 			t.Failf("vacuity guard: Simpsons(x^3) on the uniform even-count grid %v is exact", x)
-		case d == 3 && n == 3 && !uniform && math.Abs(got-want) < 1e-6*scale:
+		case d == 3 && n == 3 && !uniform && math.Abs(got-want) < 0.04*powi(x[2]-x[0], 3)*math.Abs((x[2]-x[1])-(x[1]-x[0])):
+			// error (h0+h1)^3 (h1-h0)/12
 			t.Failf("vacuity guard: Simpsons(x^3) on the irregular 3-point grid %v is exact", x)
 		}
 		t.Count("simpson_evaluations", 1)
@@ -110,7 +141,7 @@ func gridCase(t *vlib.T, m, code int, a float64) {
 		f := sample(x, 4)
 		got := integrate.Simpsons(x, f)
 		want := ratFloat(ratMonomialIntegral(a, b, 4))
-		if math.Abs(got-want) < 1e-6*math.Abs(want) {
+		if math.Abs(got-want) < 0.01*(b-a)*powi(x[1]-x[0], 4) {
 			t.Failf("vacuity guard: Simpsons(x^4) on %v is exact", x)
 		}
 	}
@@ -141,9 +172,9 @@ func gridPanics(t *vlib.T) {
 }
 
 func genRomberg(g *vlib.G) {
-	for k := 1; k <= 6; k++ {
-		for _, L := range []float64{1, 2, 3} {
-			for _, a := range []float64{0, -2} {
+	for k := 1; k <= 10; k++ {
+		for _, L := range []float64{1, 2, 3, 0.125, 48} {
+			for _, a := range []float64{0, -2, 1.5, -31} {
 				k, L, a := k, L, a
 				g.Case(fmt.Sprintf("k=%d L=%g a=%g", k, L, a), func(t *vlib.T) { rombergCase(t, k, L, a) })
 			}
@@ -192,7 +223,7 @@ func rombergCase(t *vlib.T, k int, L, a float64) {
 		}
 		t.Count("romberg_evaluations", 1)
 	}
-	if k <= 3 {
+	if k <= 3 && L >= 1 && math.Abs(a) <= 2 { // the truncation term is only visible on intervals of moderate size near the origin
 		d := 2*k + 2
 		f := sample(x, d)
 		got := integrate.Romberg(f, dx)
